@@ -38,15 +38,20 @@ func ParseGoVersion(version string) (GoVersion, error) {
 	if len(parts) != 2 {
 		return result, fmt.Errorf("invalid Go version format: %s", version)
 	}
-	major, err := strconv.Atoi(parts[0])
+	// ParseUint: "-1", "+18" are not version parts.
+	major, err := strconv.ParseUint(parts[0], 10, 16)
 	if err != nil {
 		return result, fmt.Errorf("invalid major version part: %s: %w", parts[0], err)
 	}
-	minor, err := strconv.Atoi(parts[1])
+	if major == 0 {
+		// Major=0 is the "any version" value, it can't be selected by a version string.
+		return result, fmt.Errorf("invalid major version part: %s", parts[0])
+	}
+	minor, err := strconv.ParseUint(parts[1], 10, 16)
 	if err != nil {
 		return result, fmt.Errorf("invalid minor version part: %s: %w", parts[1], err)
 	}
-	result.Major = major
-	result.Minor = minor
+	result.Major = int(major)
+	result.Minor = int(minor)
 	return result, nil
 }
